@@ -230,6 +230,13 @@ class NativeContract(object):
     def sample_inputs(self, rng, limit):
         """ finite list of input vectors from the contract's domains (product if small, random otherwise) """
         out = []
+        dom_fn = self.decl.get('domain')
+        if dom_fn is not None:
+            for vec in dom_fn(rng):
+                out.append(list(vec))
+                if len(out) >= limit:
+                    break
+            return out
         for case in self.c.cases:
             pools = []
             for n in self.names:
@@ -237,7 +244,7 @@ class NativeContract(object):
                     pools.append(api.samples_of(case[n], rng) if isinstance(case[n], api.Dom) else [case[n]])
                 else:
                     d = (self.c.decl.get('bounded_args') or {}).get(n) or self.c.args.get(n)
-                    if d is None or 'symmap' in d.kinds:
+                    if d is None or (d is not api.OMITTED and 'symmap' in d.kinds):
                         return []
                     pools.append(api.samples_of(d, rng))
             total = 1
